@@ -8,6 +8,7 @@ impl<'a> Tr<'a> {
     fn begin_stmt(&mut self) {
         self.last_borrow = None;
         self.effect_seen = false;
+        self.last_effect_result = None;
         self.effect_info.clear();
     }
 
@@ -278,6 +279,15 @@ impl<'a> Tr<'a> {
                         Ok(upd(format!("vecResize {rd} {} {}", n.arg(), x.arg())))
                     }
                     ("clear", 0) => Ok(upd("[]".to_string())),
+                    ("resize_with", 2) if matches!(args[1], Expr::Path(p) if p.path.segments.len() == 2 && p.path.segments[1].ident == "default") => {
+                        // v.resize_with(n, T::default)
+                        let (n, nt) = self.expr(args[0], env)?;
+                        if !is_index(&nt) {
+                            return self.err(sp, "argument types of `Vec::resize_with`");
+                        }
+                        note!(self, prims, format!("line {}: `{}` fills with `default` (`T::default()` is taken as the Lean `default`)", line_of(sp), self.src_text(args[1].span())));
+                        Ok(upd(format!("vecResize {rd} {} default", n.arg())))
+                    }
                     _ => self.unsupported(sp, "Vec method as a statement (only insert, push, remove, swap_remove, resize, clear)"),
                 }
             }
@@ -501,6 +511,39 @@ impl<'a> Tr<'a> {
                 Stmt::Local(l) => {
                     if !l.attrs.is_empty() {
                         return self.unsupported(l.span(), "attribute on a `let`");
+                    }
+                    // `let x = &mut V[i];`: a borrow of the element (Rust panics out of range; here `default` is read and nothing written)
+                    if let (Pat::Ident(pi), Some(init)) = (&l.pat, &l.init) {
+                        if let Expr::Reference(r) = &*init.expr {
+                            if let (true, Expr::Index(ix)) = (r.mutability.is_some(), &*r.expr) {
+                                if pi.by_ref.is_none() && pi.mutability.is_none() && init.diverge.is_none() {
+                                    let pl = self.writable(&ix.expr, &env)?;
+                                    let elem = match &pl.ty {
+                                        Ty::Vec(t) => (**t).clone(),
+                                        _ => return self.unsupported(l.span(), "index into something that is not a Vec:"),
+                                    };
+                                    let (iv, it) = self.expr(&ix.index, &env)?;
+                                    if !matches!(it, Ty::Int(..)) {
+                                        return self.err(l.span(), "type of the index");
+                                    }
+                                    let at = self.fresh("at");
+                                    let name = pi.ident.to_string();
+                                    note!(self, vecs, format!("line {}: `{}` panics in Rust when the index is ≥ len; here `default` is read and the write-back changes nothing", line_of(l.span()), self.src_text(init.expr.span())));
+                                    if let Ty::Named { tyvar: true, lean, .. } = &elem {
+                                        self.inh.insert(lean.clone());
+                                    }
+                                    let own = vec![Chunk::Lines(vec![
+                                        format!("let {at} := {}  -- L{}", iv.s, line_of(l.span())),
+                                        format!("let {} := optUnwrap (vecGet {} {at})  -- L{}", lean_ident(&name), pl.read(), line_of(l.span())),
+                                    ])];
+                                    env.push(Var { name: name.clone(), ty: elem, kind: Kind::MutBorrow(Borrow { vec: pl, idx: at, value: lean_ident(&name), setter: "vecSet".into() }) });
+                                    if let Some(done) = self.close_stmt(stmts, i + 1, &env, mode, sp, &mut out, own)? {
+                                        return Ok(done);
+                                    }
+                                    continue;
+                                }
+                            }
+                        }
                     }
                     // `let (a, b) = e;`
                     if let (Pat::Tuple(pt), Some(init)) = (&l.pat, &l.init) {
